@@ -44,6 +44,14 @@ CLAIMED = {
          "abstract interpretation of Unwrap's SSA in the congruence domain ℤ/2^16 (affine forms over input and previous result)",
          "Proves, for all inputs and prior states, that Unwrap's result and stored state are congruent to the input modulo 2^16 (one clause of the property). Proximity, non-negativity and all NTP clauses are not decided; claimed at level 'other' for that reason.",
          "integer conversions between ≥16-bit types preserve the residue class; the state field is only written by Unwrap"),
+ "C09": ("DESIGN.md §3 G, F1, E2",
+         "control-dependence rule on delta cursors (post-dominators + backward slice to history lookups), per-iteration path counting of position counters, index-guard rule",
+         "Decides the clause the property singles out — the decoded arrival of a packet does not depend on whether neighbours are still in the history — plus once-per-symbol position advance and guarded delta indexing, for every function that walks a TWCC feedback. Arrival-time arithmetic and history contents are not decided.",
+         "attribution-key fields and the delta element type are named in a table; lookup predicates are recognised by shape ((T,bool) result + comma-ok map lookup on a field)"),
+ "C16": ("DESIGN.md §3 H",
+         "store-provenance rule (clamp barrier with configured bounds), consumer-argument agreement rule, closed-gate rule over locksets and dominating facts",
+         "Decides that every published bitrate is the output of a clamp with the configured bounds, that pacer/callback/getter see the same value, and that feeding feedback after Close cannot send on a closed pipe. The floating-point estimator stages are not analysed; the clamp absorbs them.",
+         "clampInt(x, lo, hi) returns a value in [lo,hi] for lo ≤ hi (its three-line body is not re-verified); field tables frozen"),
 }
 
 NA = {
